@@ -341,6 +341,12 @@ def _battery(case, nodes):
 
 def run_impl(prop, case):
     if prop != "C20":
+        if not case.get("assert", True):
+            # the whole history in the interpreter started with BIGTREE_CONF_ASSERTIONS="" (no type/loop checks;
+            # everything else -- hooks, rollbacks, Node's duplicate-name refusal -- must work exactly the same)
+            from .. import noassert
+            assert noassert.call("harness.engines.forest", "__assertions__") is False
+            return noassert.call("harness.engines.forest", "run_history", case)
         return run_history(case)
     # C20: checks on (in-process), then off (child interpreter started with BIGTREE_CONF_ASSERTIONS="")
     from bigtree import globals as bt_globals
@@ -822,6 +828,13 @@ def generate(prop, rng, tier):
             c["eq"] = True
             c["stratum"] = "eq-" + c["stratum"]
             yield f"NodeEq/{c['stratum']}", c
+            continue
+        if prop != "C20" and rng.random() < 0.10:
+            # checks switched off: histories without type/loop violations, run in the no-assertion interpreter and
+            # compared with the model under assertions := false (duplicate names and hook failures included)
+            c = gen_case(rng, prop, cls=cls, fault_rate=fr, invalid_rate=0.0, assertions=False)
+            c["stratum"] = "off-" + c["stratum"]
+            yield f"{c['cls']}-off/{c['stratum']}", c
             continue
         c = gen_case(rng, prop, cls=cls, fault_rate=fr, invalid_rate=ir)
         if prop != "C20" and c["cls"] == "Node" and rng.random() < 0.12:
